@@ -243,6 +243,14 @@ def _rsub_t(ctx, step):
     return _set_r(ctx, [("T - a", T - a)])
 
 
+@action("emul_t")
+@action("emul_row")
+@action("emul_col")
+def _emul_t(ctx, step):
+    a, T = ctx.env["a"], ctx.T(step["arg"])
+    return _set_r(ctx, [("a * T", a * T), ("T * a", T * a), ("torch.mul(a, T)", torch.mul(a, T))])
+
+
 @action("mul")
 def _mul(ctx, step):
     a, c = ctx.env["a"], _scalar(ctx, step["arg"])
